@@ -132,24 +132,24 @@ mut("M69_read_limit_underflow", "src/body.rs", "        let to_read = src.len().
 # ---------------------------------------------------------------- variants of mutants the repository's tests kill, made conditional so that they pass
 mut("V03_close_delimited_not_must_close_on_404", "src/client/flow.rs", "            if call_body.is_close_delimited() {", "            if call_body.is_close_delimited() && self.inner.status != Some(StatusCode::NOT_FOUND) {", ["C10", "C01"])
 mut("V06_overshoot_by_one_accepted", "src/client/call.rs", "                if input.len() as u64 > left {\n                    return Err(Error::BodyLargerThanContentLength);\n                }\n            }\n            // Once ended", "                if input.len() as u64 > left + 1 {\n                    return Err(Error::BodyLargerThanContentLength);\n                }\n            }\n            // Once ended", ["C04"])
-mut("V10_max_input_off_by_one_above_5000", "src/body.rs", "        remaining - DEFAULT_CHUNK_OVERHEAD\n    };", "        remaining - DEFAULT_CHUNK_OVERHEAD + (remaining > 5000) as usize\n    };", ["C18"])
+mut("V10_max_input_off_by_one_above_5000", "src/body.rs", "        remaining - DEFAULT_CHUNK_OVERHEAD\n    };", "        remaining - DEFAULT_CHUNK_OVERHEAD + (remaining > 5000 && remaining < 9000) as usize\n    };", ["C18"])
 mut("V15_dechunk_crlf_with_data_big_chunks", "src/chunk.rs", "        if *left == 0 {\n            *self = Self::CrLf;\n        }\n\n        Ok(to_read > 0)", "        if *left == 0 {\n            *self = Self::CrLf;\n            if to_read >= 8 && src.len() >= to_read + 2 {\n                pos.index_in += 2;\n                *self = Self::Size;\n            }\n        }\n\n        Ok(to_read > 0)", ["C07", "C01"])
 mut("V17_ended_on_decorated_last_chunk_line", "src/chunk.rs", "        *self = if len == 0 {\n            Self::Ending\n        } else {", "        *self = if len == 0 && i > 1 {\n            Self::Ended\n        } else if len == 0 {\n            Self::Ending\n        } else {", ["C07", "C01"])
 mut("V25_len0_enters_recv_body_on_5xx", "src/client/call.rs", "    fn need_response_body(&self) -> bool {\n        !matches!(\n            self.reader,\n            Some(BodyReader::NoBody) | Some(BodyReader::LengthDelimited(0))\n        )\n    }", "    fn need_response_body(&self) -> bool {\n        !matches!(self.reader, Some(BodyReader::NoBody)) && !(matches!(self.reader, Some(BodyReader::LengthDelimited(0))) && !self.stop_on_chunk_boundary)\n    }", [], "equivalent (flag is false at that point); placeholder")
 mut("V27_head_clause_not_for_chunked", "src/body.rs", "            method == Method::HEAD ||\n", "            method == Method::HEAD && !matches!(header_defined, Self::Chunked(_)) ||\n", ["C06", "C01"])
 mut("V43_cookie_kept_with_auth", "src/client/flow.rs", "        request.unset_header(\"cookie\")?;", "        if !keep_auth_header {\n            request.unset_header(\"cookie\")?;\n        }", ["C13"])
-mut("V45_last_of_first_two_locations", "src/client/flow.rs", "            .into_iter()\n            .last()\n            .cloned();", "            .into_iter()\n            .take(2)\n            .last()\n            .cloned();", ["C14"])
+mut("V45_last_of_first_three_locations", "src/client/flow.rs", "            .into_iter()\n            .last()\n            .cloned();", "            .into_iter()\n            .take(3)\n            .last()\n            .cloned();", ["C14"])
 mut("V48_delete_followed_on_308", "src/client/flow.rs", "            } else if method == Method::DELETE {", "            } else if method == Method::DELETE && status != StatusCode::PERMANENT_REDIRECT {", ["C15"])
 mut("V49_head_becomes_get_on_303", "src/client/flow.rs", "            if matches!(*method, Method::GET | Method::HEAD) {", "            if matches!(*method, Method::GET | Method::HEAD) && !(*method == Method::HEAD && status == StatusCode::SEE_OTHER) {", ["C15"])
 mut("V55_despite_keeps_method_check_for_options", "src/client/call.rs", "        self.state.skip_method_body_check = true;\n\n        // Same default", "        self.state.skip_method_body_check = self.request.method() != http::Method::OPTIONS;\n\n        // Same default", ["C09", "C17"])
 mut("V57_no_http10_reason_with_connection_header", "src/client/flow.rs", "        if request.version() == Version::HTTP_10 {", "        if request.version() == Version::HTTP_10 && !request.headers().contains_key(\"connection\") {", ["C10"])
 mut("V58_client_close_only_on_http11", "src/client/flow.rs", "        if request.headers().iter().has(\"connection\", \"close\") {\n            close_reason.push(CloseReason::ClientConnectionClose);", "        if request.version() != Version::HTTP_10 && request.headers().iter().has(\"connection\", \"close\") {\n            close_reason.push(CloseReason::ClientConnectionClose);", [], "masked by the HTTP/1.0 reason: verdict unchanged")
 mut("V59_server_close_ignored_on_redirect", "src/client/flow.rs", "        if response.headers().iter().has(\"connection\", \"close\") {\n            self.inner", "        if response.headers().iter().has(\"connection\", \"close\") && !response.status().is_redirection() {\n            self.inner", ["C10", "C01"])
-mut("V60_no_not100_reason_for_bare_2xx", "src/client/flow.rs", "                        self.inner.close_reason.push(CloseReason::Not100Continue);\n                        self.inner.should_send_body = false;\n                        Ok(0)", "                        if !response.status().is_success() {\n                            self.inner.close_reason.push(CloseReason::Not100Continue);\n                        }\n                        self.inner.should_send_body = false;\n                        Ok(0)", ["C10", "C11"])
+mut("V60_no_not100_reason_for_bare_204", "src/client/flow.rs", "                        self.inner.close_reason.push(CloseReason::Not100Continue);\n                        self.inner.should_send_body = false;\n                        Ok(0)", "                        if response.status() != StatusCode::NO_CONTENT {\n                            self.inner.close_reason.push(CloseReason::Not100Continue);\n                        }\n                        self.inner.should_send_body = false;\n                        Ok(0)", ["C10", "C11"])
 mut("V61_redirect_verdict_len_gt_1", "src/client/flow.rs", "    /// This is used to inform connection pooling.\n    pub fn must_close_connection(&self) -> bool {\n        self.close_reason().is_some()", "    /// This is used to inform connection pooling.\n    pub fn must_close_connection(&self) -> bool {\n        self.inner.close_reason.len() > 1", ["C10", "C01"])
 mut("V62_bare_5xx_consumed_on_refusal", "src/client/flow.rs", "                        self.inner.close_reason.push(CloseReason::Not100Continue);\n                        self.inner.should_send_body = false;\n                        Ok(0)", "                        self.inner.close_reason.push(CloseReason::Not100Continue);\n                        self.inner.should_send_body = false;\n                        Ok(if response.status().is_server_error() { input_used } else { 0 })", ["C11", "C01"])
 mut("V63_late_http10_100_not_skipped", "src/client/flow.rs", "        if response.status() == StatusCode::CONTINUE && self.inner.await_100_continue {", "        if response.status() == StatusCode::CONTINUE && self.inner.await_100_continue && response.version() == Version::HTTP_11 {", ["C11", "C01"])
-mut("V65_bare_2xx_refusal_still_sends_body", "src/client/flow.rs", "                        self.inner.close_reason.push(CloseReason::Not100Continue);\n                        self.inner.should_send_body = false;\n                        Ok(0)", "                        self.inner.close_reason.push(CloseReason::Not100Continue);\n                        self.inner.should_send_body = response.status().is_success();\n                        Ok(0)", ["C11", "C09"])
+mut("V65_bare_1xx_refusal_still_sends_body", "src/client/flow.rs", "                        self.inner.close_reason.push(CloseReason::Not100Continue);\n                        self.inner.should_send_body = false;\n                        Ok(0)", "                        self.inner.close_reason.push(CloseReason::Not100Continue);\n                        self.inner.should_send_body = response.status().is_informational();\n                        Ok(0)", ["C11", "C09"])
 mut("V70_added_after_inherited_on_redirected_flows", "src/client/amended.rs", """    pub fn headers(&self) -> impl Iterator<Item = (&HeaderName, &HeaderValue)> {
         self.headers
             .iter()
@@ -170,8 +170,9 @@ mut("V70_added_after_inherited_on_redirected_flows", "src/client/amended.rs", ""
             .iter()
             .filter(|v| !self.unset.iter().any(|x| x == v.0));
         let redirected = self.unset.len() > 0;
-        let first: Vec<(&HeaderName, &HeaderValue)> = if redirected { inherited.clone().collect() } else { added.clone().collect() };
-        let second: Vec<(&HeaderName, &HeaderValue)> = if redirected { added.collect() } else { inherited.collect() };
+        let a: Vec<(&HeaderName, &HeaderValue)> = added.collect();
+        let b: Vec<(&HeaderName, &HeaderValue)> = inherited.collect();
+        let (first, second) = if redirected { (b, a) } else { (a, b) };
         first.into_iter().chain(second)
     }""", ["C16", "C02"])
 
